@@ -113,8 +113,10 @@ Record dstage := { ds_neg : bool; ds_value : f64; ds_whole0 : Z; ds_tmp : f64; d
 Definition clamp_prec (prec : Z) : Z := if prec <? 0 then 0 else if 9 <? prec then 9 else prec.
 
 (* everything up to (not including) the thres_max test; prec already clamped.
-   None: value is not finite (the casts are undefined; that path always ends in sprintf) *)
-Definition dtoa_stage (v : f64) (prec : Z) : option dstage :=
+   None: value is not finite (the casts are undefined; that path always ends in sprintf).
+   [fixed] = true is the code as of commit a6c4c45 (the halfway branch handles the fraction
+   roll-over when prec > 0); [fixed] = false the code before it (kept for the refutation witness). *)
+Definition dtoa_stage_gen (fixed : bool) (v : f64) (prec : Z) : option dstage :=
   let neg := flt v fzero in                                 (* if (value < 0) { neg = 1; *)
   let value := if neg then fneg v else v in                 (*    value = -value; }      *)
   match trunc_f64 value with
@@ -132,12 +134,20 @@ Definition dtoa_stage (v : f64) (prec : Z) : option dstage :=
           then (0, whole0 + 1)                              (*     { frac = 0; ++whole; } } *)
           else (frac1, whole0)
         else if feq diff fhalf && ((frac0 =? 0) || Z.odd frac0)
-        then ((frac0 + 1) mod W32, whole0)                  (*   ++frac;  -- no roll-over test *)
+        then                                                (* else if (diff == 0.5 && (..)) { ++frac; *)
+          let frac1 := (frac0 + 1) mod W32 in
+          if fixed && (0 <? prec) && fle (pow10_tab prec) (f_of_Z frac1)
+          then (0, whole0 + 1)                              (*   if (prec > 0 && frac >= pow10_[prec])
+                                                                   { frac = 0; ++whole; } } *)
+          else (frac1, whole0)
         else (frac0, whole0) in
       Some {| ds_neg := neg; ds_value := value; ds_whole0 := whole0; ds_tmp := tmp;
               ds_frac0 := frac0; ds_diff := diff; ds_frac := frac; ds_whole := whole |}
     end
   end.
+
+Definition dtoa_stage := dtoa_stage_gen true.            (* the current tree *)
+Definition dtoa_stage_orig := dtoa_stage_gen false.      (* before a6c4c45: no roll-over test in the halfway branch *)
 
 Inductive dtoa_result :=
   | DT_text (t : list Z)      (* the characters written *)
@@ -145,11 +155,11 @@ Inductive dtoa_result :=
   | DT_overflow               (* ++whole executed with whole = INT_MAX: signed overflow (undefined) *)
   | DT_fuel.                  (* a digit loop ran out of fuel: excluded by the proofs *)
 
-Definition modp_dtoa (v : f64) (prec0 : Z) : dtoa_result :=
+Definition modp_dtoa_with (stage : f64 -> Z -> option dstage) (v : f64) (prec0 : Z) : dtoa_result :=
   if negb (feq v v) then DT_text [110; 97; 110]             (* "nan" *)
   else
     let prec := clamp_prec prec0 in
-    match dtoa_stage v prec with
+    match stage v prec with
     | None => DT_sprintf
     | Some st =>
       let value := ds_value st in
@@ -185,6 +195,9 @@ Definition modp_dtoa (v : f64) (prec0 : Z) : dtoa_result :=
           end
         end
     end.
+
+Definition modp_dtoa := modp_dtoa_with dtoa_stage.
+Definition modp_dtoa_orig := modp_dtoa_with dtoa_stage_orig.
 
 (* ---------------------------------------------------------------------------- fast_atof *)
 
